@@ -186,7 +186,9 @@ def run(tier: str, seed: int) -> int:
             if o is not None and dataclasses.asdict(o) != o_before:
                 failures.append({"what": f"compile_code modified the options object it was given: {o_before} → {dataclasses.asdict(o)}", "history": reqs[:ri + 1]})
             if req["src"] != src_before:
-                failures.append({"what": "compile_code modified the source mapping it was given", "history": reqs[:ri + 1]})
+                failures.append({"what": f"compile_code modified the source mapping it was given: keys {sorted(src_before) if isinstance(src_before, dict) else '-'} → "
+                                         f"{sorted(req['src']) if isinstance(req['src'], dict) else '-'}", "history": copy.deepcopy(reqs[:ri]) + [dict(req, src=src_before)]})
+                req["src"] = copy.deepcopy(src_before)      # the rest of this run (keys, samples, fresh processes) uses the request as it was submitted
             key = json.dumps(req, sort_keys=True)
             chk.count((hi, ri, key), nontrivial=ri > 0)
             in_process.append((hi, ri, key, norm(res)))
